@@ -109,10 +109,22 @@ func getReturns(last *token, p *parser) *token {
 			p.Advance(",")
 		}
 		p.Advance(")")
-	} else if p.Token.Symbol != ")" && p.Token.Symbol != "," && p.Token.Symbol != "{" && p.Token.Symbol != "}" && p.Token.Symbol != ";" && p.Token.Pos.Line == last.Pos.Line {
+	} else if startsType(p.Token) && p.Token.Pos.Line == last.Pos.Line {
 		returns.Append(getType(p))
 	}
 	return returns
+}
+
+// startsType reports whether the token can begin a type (see getType). What follows
+// a parameter list on the same line is the result type only then: in
+// "var f func(int) = g" the = belongs to the declaration, the function has no result.
+func startsType(t *token) bool {
+	switch t.Symbol {
+	case "(name)", "[]", "map", "*", "func", "struct", "interface",
+		"any", "float64", "int", "int32", "uint32", "uint", "rune", "byte", "uint8", "int8", "uint16", "int16", "uint64", "int64", "bool", "string", "error":
+		return true
+	}
+	return false
 }
 
 func funcNud(p *parser, t *token) *token {
